@@ -598,7 +598,7 @@ var clauseKW = map[string]bool{
 	"func": true, "spec": true, "uf": true, "ghost": true, "axiom": true, "lemma": true, "pred": true,
 	"requires": true, "ensures": true, "assigns": true, "loop": true, "safety": true,
 	"props": true, "trusted": true, "inline": true, "pure": true, "maypanic": true, "nobody": true,
-	"extern": true, "opaque": true, "uses": true, "allocbound": true, "forbids": true, "decreases": true, "invariant": true, "defines": true, "proves": true, "wraparound": true, "reveals": true,
+	"extern": true, "opaque": true, "uses": true, "allocbound": true, "forbids": true, "decreases": true, "invariant": true, "defines": true, "assumes": true, "proves": true, "wraparound": true, "reveals": true,
 }
 
 type rawClause struct {
@@ -735,7 +735,7 @@ func ParseContractFile(path string) (*ContractFile, error) {
 				} else {
 					cur.Decreases = cl
 				}
-			case "requires", "ensures", "defines", "proves":
+			case "requires", "ensures", "defines", "assumes", "proves":
 				label, text := splitLabel(rc.text)
 				e, err := ParseExpr(text)
 				if err != nil {
@@ -744,7 +744,7 @@ func ParseContractFile(path string) (*ContractFile, error) {
 				cl := Clause{Label: label, E: e, Text: text, Line: rc.line, File: path}
 				if rc.kw == "requires" {
 					cur.Requires = append(cur.Requires, cl)
-				} else if rc.kw == "defines" {
+				} else if rc.kw == "defines" || rc.kw == "assumes" {
 					cur.Defines = append(cur.Defines, cl)
 				} else if rc.kw == "proves" {
 					cur.Proves = append(cur.Proves, cl)
